@@ -9,6 +9,7 @@ package redis
 import (
 	"context"
 	"encoding/json"
+	"strconv"
 	"testing"
 	"time"
 
@@ -23,7 +24,8 @@ import (
 
 type verifOp struct {
 	M    string         `json:"m"`
-	Form string         `json:"form"` // ctx | plain | canceled
+	W    int            `json:"w"`    // which wrapper / address (several-address histories)
+	Form string         `json:"form"` // ctx | plain | canceled | deadline
 	A    c12raw.C12Args `json:"a"`
 }
 
@@ -732,89 +734,202 @@ func verifWrap(w *Redis, node Node, ctx context.Context, plain bool, m string, a
 
 var verifEpoch = time.Unix(1700000000, 0)
 
+// verifCtx builds the context of an operation: live, already cancelled, or already past its deadline.
+func verifCtx(form string) (context.Context, context.CancelFunc) {
+	switch form {
+	case "canceled":
+		ctx, cancel := context.WithCancel(context.Background())
+		cancel()
+		return ctx, cancel
+	case "deadline":
+		return context.WithDeadline(context.Background(), time.Unix(1, 0))
+	}
+	return context.Background(), func() {}
+}
+
+// verifDiff: c.N (default 1) addresses; wrapper i talks to server sw[i], a raw go-redis client to its twin sr[i].
+// The wrappers' clients are created in index order.  "#restart" closes and restarts both servers of an address
+// (data kept, pooled connections dead), "#ff" lets time pass, "#mark" snapshots the wrapper-side keyspaces.
 func verifDiff(c verifCase) any {
-	sw, err := miniredis.Run()
-	if err != nil {
-		return map[string]any{"error": err.Error()}
-	}
-	defer sw.Close()
-	sr, err := miniredis.Run()
-	if err != nil {
-		return map[string]any{"error": err.Error()}
-	}
-	defer sr.Close()
-	for _, s := range []*miniredis.Miniredis{sw, sr} {
-		s.Seed(c.Seed)
-		s.SetTime(verifEpoch)
+	n := c.N
+	if n <= 0 {
+		n = 1
 	}
 	clientManager = syncx.NewResourceManager() // ports are reused across cases: never inherit a cached client
-	w := New(sw.Addr())
-	brk := &verifBrk{inner: w.brk, pass: true}
-	w.brk = brk
-	raw := red.NewClient(&red.Options{Addr: sr.Addr(), DB: defaultDatabase, MaxRetries: maxRetries})
-	defer raw.Close()
+	GetScriptCache().Store(make(Map))          // the script cache is process-wide: start every case empty
+	var sw, sr []*miniredis.Miniredis
+	var ws []*Redis
+	var brks []*verifBrk
+	var raws []*red.Client
+	nodes := make([]ClosableNode, n)
+	rawNodes := make([]*red.Client, n)
+	for i := 0; i < n; i++ {
+		a, err := miniredis.Run()
+		if err != nil {
+			return map[string]any{"error": err.Error()}
+		}
+		defer a.Close()
+		b, err := miniredis.Run()
+		if err != nil {
+			return map[string]any{"error": err.Error()}
+		}
+		defer b.Close()
+		for _, s := range []*miniredis.Miniredis{a, b} {
+			s.Seed(c.Seed + i)
+			s.SetTime(verifEpoch)
+		}
+		w := New(a.Addr())
+		brk := &verifBrk{inner: w.brk, pass: true}
+		w.brk = brk
+		w.Ping() // creates the client of this address now: clients exist in index order
+		raw := red.NewClient(&red.Options{Addr: b.Addr(), DB: defaultDatabase, MaxRetries: maxRetries})
+		defer raw.Close()
+		defer func() {
+			if cl, err := getClient(w); err == nil {
+				_ = cl.Close()
+			}
+		}()
+		sw, sr, ws, brks, raws = append(sw, a), append(sr, b), append(ws, w), append(brks, brk), append(raws, raw)
+	}
 	defer func() {
-		if cl, err := getClient(w); err == nil {
-			_ = cl.Close()
+		for i := range nodes {
+			if nodes[i] != nil {
+				nodes[i].Close()
+			}
+			if rawNodes[i] != nil {
+				rawNodes[i].Close()
+			}
 		}
 	}()
-	var node ClosableNode
-	var rawNode *red.Client
-	defer func() {
-		if node != nil {
-			node.Close()
+	dump := func(ss []*miniredis.Miniredis) [][2]string {
+		out := [][2]string{}
+		for i, s := range ss {
+			for _, kv := range c12raw.C12Dump(s) {
+				if n > 1 {
+					kv[0] = strconv.Itoa(i) + ":" + kv[0]
+				}
+				out = append(out, kv)
+			}
 		}
-		if rawNode != nil {
-			rawNode.Close()
-		}
-	}()
+		return out
+	}
 
 	steps := []any{}
+	var mark any
+	restarted := make([]bool, n) // miniredis cancels its blocking-command context for good on Close: no BLPop after a restart
 	for _, op := range c.Ops {
-		if op.M == "#ff" { // time passes on both servers
+		i := op.W
+		if i < 0 || i >= n {
+			i = 0
+		}
+		switch op.M {
+		case "#ff": // time passes on every server
 			d := time.Duration(op.A.I(0)) * time.Second
-			sw.FastForward(d)
-			sr.FastForward(d)
+			for j := range sw {
+				sw[j].FastForward(d)
+				sr[j].FastForward(d)
+			}
 			steps = append(steps, map[string]any{"skip": "ff"})
 			continue
-		}
-		ctx := context.Background()
-		if op.Form == "canceled" {
-			cctx, cancel := context.WithCancel(ctx)
-			cancel()
-			ctx = cctx
-		}
-		var rawc red.Cmdable = raw
-		if len(op.M) > 5 && op.M[:5] == "BLPop" {
-			// deterministic subset of the blocking commands: only when an element is there
-			k := op.A.S(len(op.A) - 1)
-			lw, _ := sw.List(k)
-			lr, _ := sr.List(k)
-			if len(lw) == 0 || len(lr) == 0 || op.Form == "canceled" {
-				steps = append(steps, map[string]any{"skip": "blocking"})
-				continue
+		case "#restart":
+			for _, s := range []*miniredis.Miniredis{sw[i], sr[i]} {
+				s.Close()
+				if err := s.Restart(); err != nil {
+					return map[string]any{"error": "restart: " + err.Error()}
+				}
 			}
-			if node == nil {
-				node, _ = CreateBlockingNode(w)
-				rawNode = red.NewClient(&red.Options{Addr: sr.Addr(), PoolSize: 1})
-			}
-			rawc = rawNode
-		}
-		brk.reset()
-		wv, we, wx, ok := verifWrap(w, node, ctx, op.Form == "plain", op.M, op.A)
-		if !ok {
-			steps = append(steps, map[string]any{"skip": "unknown method " + op.M})
+			restarted[i] = true
+			steps = append(steps, map[string]any{"skip": "restart"})
+			continue
+		case "#mark":
+			mark = dump(sw)
+			steps = append(steps, map[string]any{"skip": "mark"})
 			continue
 		}
+		w, brk := ws[i], brks[i]
+		ctx, cancel := verifCtx(op.Form)
+		dead := op.Form == "canceled" || op.Form == "deadline"
+		var rawc red.Cmdable = raws[i]
+		if len(op.M) > 5 && op.M[:5] == "BLPop" {
+			// deterministic subset of the blocking commands: an element is there, or the context is dead anyway
+			k := op.A.S(len(op.A) - 1)
+			lw, _ := sw[i].List(k)
+			lr, _ := sr[i].List(k)
+			if ((len(lw) == 0 || len(lr) == 0) && !dead) || restarted[i] {
+				steps = append(steps, map[string]any{"skip": "blocking"})
+				cancel()
+				continue
+			}
+			if nodes[i] == nil {
+				nodes[i], _ = CreateBlockingNode(w)
+				rawNodes[i] = red.NewClient(&red.Options{Addr: sr[i].Addr(), PoolSize: 1})
+			}
+			rawc = rawNodes[i]
+		}
+		brk.reset()
+		var wv, rv any
+		var we, re error
+		var wx, rx string
+		ok := true
+		if op.M == "#EvalCached" {
+			// the scripts API as it is meant to be used: sha from the script cache (loaded and registered on a
+			// miss), then EvalSha -- against plain Eval of the same script on the twin
+			script := c12raw.C12Lua[op.A.N(0)]
+			sha, hit := GetScriptCache().GetSha(script)
+			if !hit {
+				sha, we = w.ScriptLoadCtx(context.Background(), script)
+				GetScriptCache().SetSha(script, sha)
+				raws[i].ScriptLoad(context.Background(), script) // keep the twins' server-side script caches in step
+			}
+			brk.reset()
+			if we == nil {
+				wv, we = w.EvalShaCtx(ctx, sha, op.A.SS(1), op.A.Anys(2)...)
+			}
+			rv, re, rx, _ = c12raw.C12Raw(rawc, ctx, "EvalCtx", op.A)
+		} else {
+			wv, we, wx, ok = verifWrap(w, nodes[i], ctx, op.Form == "plain", op.M, op.A)
+			if !ok {
+				steps = append(steps, map[string]any{"skip": "unknown method " + op.M})
+				cancel()
+				continue
+			}
+			rv, re, rx, _ = c12raw.C12Raw(rawc, ctx, op.M, op.A)
+		}
 		told := brk.told()
-		rv, re, rx, _ := c12raw.C12Raw(rawc, ctx, op.M, op.A)
+		cancel()
 		steps = append(steps, map[string]any{
 			"w":   map[string]any{"v": c12raw.C12Val(c12raw.C12Canon(op.M, wv)), "e": c12raw.C12Err(we)},
 			"r":   map[string]any{"v": c12raw.C12Val(c12raw.C12Canon(op.M, rv)), "e": c12raw.C12Err(re)},
 			"brk": told, "xw": wx, "xr": rx,
 		})
 	}
-	return map[string]any{"steps": steps, "dump_w": c12raw.C12Dump(sw), "dump_r": c12raw.C12Dump(sr)}
+	out := map[string]any{"steps": steps, "dump_w": dump(sw), "dump_r": dump(sr)}
+	if mark != nil {
+		out["dump_w0"] = mark
+	}
+	return out
+}
+
+// verifSha: a stream of SetSha / GetSha calls on the process-wide script cache (started empty).
+func verifSha(c verifCase) any {
+	sc := GetScriptCache()
+	sc.Store(make(Map))
+	out := []any{}
+	for _, op := range c.Ops {
+		switch op.M {
+		case "set":
+			sc.SetSha(op.A.S(0), op.A.S(1))
+			out = append(out, nil)
+		case "get":
+			sha, ok := sc.GetSha(op.A.S(0))
+			if ok {
+				out = append(out, sha)
+			} else {
+				out = append(out, false)
+			}
+		}
+	}
+	return map[string]any{"sha": out}
 }
 
 // verifBreaker: the real breaker under (a) absent keys, (b) cancelled contexts, (c) a dead server.
@@ -882,6 +997,8 @@ func TestVerifDriver(t *testing.T) {
 			return verifDiff(c)
 		case "breaker":
 			return verifBreaker(c)
+		case "sha":
+			return verifSha(c)
 		}
 		return map[string]any{"error": "unknown kind " + c.Kind}
 	})
